@@ -6,11 +6,13 @@ SPEC = {
         "the allocation registry (harness/common/alloc_track.h) sees every operator new/delete of the process; blocks are attributed to the library when allocated inside a library call",
         "ASan reports reads of released or out-of-bounds storage when the harness reads data()[0..size] of every live buffer after every step",
         "a moved-from or self-move-assigned buffer may hold any value; the model adopts the value it reports",
+        "elements left unwritten after allocate(n) are indeterminate: the model adopts them; after allocate(n, fill) every element must equal fill",
+        "compare / == / != / < are judged against std::basic_string::compare of the models (same char_traits), which is the order C06 states for buffers",
     ],
     "claim": {
         "category": "exploration",
         "technique": "stateful model-based generation (rapidcheck byte-decoded operation histories, libFuzzer) with a per-object std::basic_string model and an allocation-registry ownership invariant after every step",
-        "text": "Generated operation histories over a pool of heap-placed buffers of all four element types are executed against the real objects and a std::basic_string model; after every step each live buffer must report the model's size and elements, be NUL-terminated, and use storage inside its own footprint or an exclusively owned live heap block; invalid/double frees and leaks are detected by the allocation registry and ASan. Histories are shrunk as one value.",
-        "level_note": "Sampled histories (<= 80 operations, 6 objects, lengths in 8 classes around the observed small-buffer limit); absence beyond the explored histories is not established.",
+        "text": "Generated operation histories over a pool of heap-placed buffers of all four element types are executed against the real objects and a std::basic_string model; after every step each live buffer must report the model's size and elements, be NUL-terminated, and use storage inside its own footprint or an exclusively owned live heap block; invalid/double frees and leaks are detected by the allocation registry and ASan. Histories are shrunk as one value. Extended histories (80 % of the cases) add construction from null_t, (nullptr,0), the four ST_*_LITERAL macros and the five _stbuf literal operators (15 literals with embedded / trailing NULs around both limits: size must be the literal's length), assignment from null_t and temporaries, (count,fill) and allocate(n,fill) with every fill value incl. 0, allocate(n) with partial writes, writes through every non-const accessor and iterator, std::swap, the chain a=move(b); b=a; a=a; b=move(b), 3..6-step shrink/grow histories, compare/compare_n/==/!=/</null_t comparisons against pool members and freshly built buffers (equality depends on current contents only), view(start,length), all iterator pairs, c_str(substitute); a deterministic enumerator runs every (element type, pre-state of 18, action of 16, length class, fill) combination, every chain over 8x8 length classes, every shrink/grow method triple and every literal form as directed cases.",
+        "level_note": "Sampled histories (<= 80 operations, 6 objects, lengths in 8 classes around the observed small-buffer limit) plus about 234 000 enumerated directed histories (pre-state x action x length x fill, chains, shrink/grow triples, literals); absence beyond the explored histories is not established.",
     },
 }
